@@ -78,13 +78,13 @@ fn show_result(r: &Result<Cell, Error>) -> String {
 
 /// instruction budget of one top-level form (a run that exceeds it prints BUDGET and the
 /// session stops: a mutated collector can send a program into an endless loop)
-const BUDGET: usize = 5_000_000;
+const BUDGET: usize = 1_000_000;
 /// at most this many collections per session (then the session panics: PANIC line)
-const MAX_COLLECTIONS: u64 = 300_000;
+const MAX_COLLECTIONS: u64 = 40_000;
 
 /// evaluate every top-level form of `text` (what Vm::eval_text does: parse_text,
 /// prepare_eval, run — with a budget); returns the canonical results
-fn eval_all(vm: &mut Vm, text: &str, out: &mut String) {
+fn eval_all(vm: &mut Vm, text: &str, out: &mut String, budget: usize) {
     let mut rest: &str = text;
     loop {
         if rest.trim().is_empty() {
@@ -100,7 +100,7 @@ fn eval_all(vm: &mut Vm, text: &str, out: &mut String) {
         };
         let r = match vm.prepare_eval(&cell) {
             Err(e) => Err(e),
-            Ok(()) => match vm.run_count(BUDGET) {
+            Ok(()) => match vm.run_count(budget) {
                 Ok(Some(c)) => Ok(c),
                 Ok(None) => {
                     out.push_str("BUDGET ");
@@ -730,7 +730,7 @@ fn session_case(c: &[String]) -> String {
         _ => {}
     }
     let mut out = String::from("S ");
-    eval_all(&mut vm, &text, &mut out);
+    eval_all(&mut vm, &text, &mut out, BUDGET);
     out.push_str("| ");
     out.push_str(&log.borrow());
     vm.verif_set_gc_observer(None);
@@ -781,7 +781,7 @@ fn stats_case(c: &[String]) -> String {
         let text = cps(&c[i + 1..i + 1 + n]);
         i += 1 + n;
         let mut r = String::new();
-        eval_all(&mut vm, &text, &mut r);
+        eval_all(&mut vm, &text, &mut r, usize::MAX - 1);
         res.push_str(&r);
         out.push_str(&format!(
             " {}:{}:{}",
